@@ -3,22 +3,30 @@
 //!   pvsim check <ID> [--tier quick|thorough] [--seed N]
 //!   pvsim replay <ID> <file>
 //!   pvsim gen <ID> <index> [--seed N] [--tier ..]     (print one generated case)
-//!   pvsim selftest-determinism <ID> [--seeds K]
+//!   pvsim runcase <ID> <index> [--seed N] [--tier ..] (run one generated case; used by the supervisor)
+//!   pvsim runseq <ID> <first> <last> [--seed N] [--tier ..] (run cases first..=last on one thread)
+//!   pvsim selftest-determinism <ID> [--cases K]
+//!
+//! `check` and `replay` run under a supervisor: the work happens in a child process, so that a
+//! crash the panic machinery cannot catch (stack overflow on a cyclic term, a double panic, an
+//! abort) is still reported as a violation, not as a dead harness. A failure that only shows up
+//! after other cases ran in the same process (process-global state: the variable-id counter) is
+//! reported as a failing *sequence* of cases, replayed on one thread of a fresh process.
 mod ast;
 mod builder;
 mod checks;
 mod classes;
 mod consumer;
 mod corpus;
-mod gen_fd;
 mod driver;
 mod engine;
 mod findings;
 mod framework;
+mod gen_fd;
 mod gen_search;
 mod gen_tree;
-mod r2;
 mod probes;
+mod r2;
 mod refint;
 mod rng;
 mod show;
@@ -27,7 +35,8 @@ mod simuser;
 mod statedrv;
 mod valid;
 
-use framework::Tier;
+use framework::{Check, Tier};
+use std::process::Command;
 
 const DEFAULT_SEED: u64 = 20260921;
 
@@ -35,10 +44,119 @@ fn arg_after(args: &[String], flag: &str) -> Option<String> {
     args.iter().position(|a| a == flag).and_then(|i| args.get(i + 1).cloned())
 }
 
+fn tier_name(t: Tier) -> &'static str {
+    match t {
+        Tier::Quick => "quick",
+        Tier::Thorough => "thorough",
+    }
+}
+
+struct ChildOut {
+    code: Option<i32>,
+    how: String,
+    stdout: String,
+}
+
+/// Run this binary again as a child; `code` is None when a signal killed it.
+fn run_child(argv: &[String], capture: bool) -> ChildOut {
+    use std::os::unix::process::ExitStatusExt;
+    let exe = std::env::current_exe().expect("current_exe");
+    let mut cmd = Command::new(exe);
+    cmd.args(argv).env("PVSIM_CHILD", "1");
+    let (status, stdout) = if capture {
+        match cmd.output() {
+            Ok(o) => (Ok(o.status), String::from_utf8_lossy(&o.stdout).to_string()),
+            Err(e) => (Err(e), String::new()),
+        }
+    } else {
+        (cmd.status(), String::new())
+    };
+    match status {
+        Ok(st) => {
+            let how = match st.signal() {
+                Some(sig) => format!("killed by signal {}", sig),
+                None => format!("exit code {:?}", st.code()),
+            };
+            ChildOut { code: st.code(), how, stdout }
+        }
+        Err(e) => ChildOut { code: Some(2), how: format!("could not start child: {}", e), stdout },
+    }
+}
+
+fn is_crash(code: Option<i32>) -> bool {
+    !matches!(code, Some(0) | Some(1) | Some(2) | Some(3))
+}
+
+fn common_flags(seed: u64, tier: Tier) -> Vec<String> {
+    vec!["--seed".into(), seed.to_string(), "--tier".into(), tier_name(tier).into()]
+}
+
+enum SeqOutcome {
+    Clean,
+    /// (index at which it failed, description)
+    Failed(u64, String),
+}
+
+fn run_seq_child(check: &'static dyn Check, verif_dir: &str, seed: u64, tier: Tier, first: u64, last: u64) -> SeqOutcome {
+    let inflight = framework::inflight_path(verif_dir, &format!("{}-seq", check.id()));
+    let _ = std::fs::remove_file(&inflight);
+    let mut argv: Vec<String> = vec!["runseq".into(), check.id().into(), first.to_string(), last.to_string()];
+    argv.extend(common_flags(seed, tier));
+    let out = run_child(&argv, true);
+    if is_crash(out.code) {
+        let idx = framework::read_inflight(&inflight).into_iter().next().unwrap_or(last);
+        return SeqOutcome::Failed(idx, format!("crash ({})", out.how));
+    }
+    if out.code == Some(1) {
+        for line in out.stdout.lines() {
+            if let Some(rest) = line.strip_prefix("SEQ-VIOLATION index=") {
+                let mut parts = rest.splitn(2, ' ');
+                let idx = parts.next().and_then(|s| s.parse::<u64>().ok()).unwrap_or(last);
+                return SeqOutcome::Failed(idx, parts.next().unwrap_or("").to_string());
+            }
+        }
+    }
+    SeqOutcome::Clean
+}
+
+/// Look for a sequence of cases that fails when run on one thread of a fresh process; report it.
+fn sequence_search(check: &'static dyn Check, verif_dir: &str, seed: u64, tier: Tier, why: &str) -> i32 {
+    let total = check.cases(tier) as u64;
+    let span = total.min(60_000);
+    println!("note: {}: searching for a failing sequence of cases (one thread, fresh process)", why);
+    let (last, what) = match run_seq_child(check, verif_dir, seed, tier, 0, span - 1) {
+        SeqOutcome::Clean => {
+            eprintln!("harness error: {} and no sequence of the first {} cases reproduces it", why, span);
+            return 2;
+        }
+        SeqOutcome::Failed(i, w) => (i, w),
+    };
+    // shorten from the front: the largest `first` for which first..=last still fails
+    let started = std::time::Instant::now();
+    let (mut lo, mut hi) = (0u64, last);
+    while lo < hi && started.elapsed().as_secs() < 240 {
+        let mid = (lo + hi + 1) / 2;
+        match run_seq_child(check, verif_dir, seed, tier, mid, last) {
+            SeqOutcome::Failed(i, _) if i == last => lo = mid,
+            _ => hi = mid - 1,
+        }
+    }
+    let path = framework::write_sequence_replay(check, verif_dir, seed, tier_name(tier), lo, last, &what);
+    println!("VIOLATION property={} replay={}", check.id(), path);
+    println!("  class: history-dependent failure: {}", what);
+    println!(
+        "  detail: cases {}..={} of seed {} run one after the other on one thread of a fresh process fail at the last one; it passes on its own",
+        lo, last, seed
+    );
+    let case = check.generate(seed, last, tier);
+    println!("  program (last case): {}", show::program(&case.program));
+    1
+}
+
 fn main() {
     let args: Vec<String> = std::env::args().collect();
     if args.len() < 3 {
-        eprintln!("usage: pvsim check|replay|gen|selftest-determinism <ID> ...");
+        eprintln!("usage: pvsim check|replay|gen|runcase|runseq|selftest-determinism <ID> ...");
         std::process::exit(2);
     }
     engine::install_panic_hook();
@@ -61,13 +179,96 @@ fn main() {
             std::process::exit(2);
         }
     };
-    println!("VERIF_SEED={} check={} tier={:?}", seed, check.id(), tier);
+    let child = std::env::var("PVSIM_CHILD").is_ok();
     let code = match args[1].as_str() {
+        "check" if !child => {
+            println!("VERIF_SEED={} check={} tier={:?}", seed, check.id(), tier);
+            let inflight = framework::inflight_path(&verif_dir, check.id());
+            let _ = std::fs::remove_file(&inflight);
+            let out = run_child(&args[1..].to_vec(), false);
+            if out.code == Some(3) {
+                sequence_search(check, &verif_dir, seed, tier, "a violation does not reproduce in isolation")
+            } else if !is_crash(out.code) {
+                out.code.unwrap_or(2)
+            } else {
+                // the child died: is there a generated case that kills a process on its own?
+                let candidates = framework::read_inflight(&inflight);
+                let mut reported = false;
+                for idx in candidates {
+                    let mut sub: Vec<String> = vec!["runcase".into(), check.id().into(), idx.to_string()];
+                    sub.extend(common_flags(seed, tier));
+                    let o2 = run_child(&sub, false);
+                    if is_crash(o2.code) {
+                        let case = check.generate(seed, idx, tier);
+                        let path = framework::write_crash_replay(check, &verif_dir, seed, idx, &case, &o2.how);
+                        println!("VIOLATION property={} replay={}", check.id(), path);
+                        println!("  class: crash ({})", o2.how);
+                        println!("  detail: the process running this case does not survive it (stack overflow, abort or double panic)");
+                        println!("  program: {}", show::program(&case.program));
+                        reported = true;
+                        break;
+                    }
+                }
+                if reported {
+                    1
+                } else {
+                    sequence_search(
+                        check,
+                        &verif_dir,
+                        seed,
+                        tier,
+                        &format!("the exploration process died ({}) and no single case reproduces it", out.how),
+                    )
+                }
+            }
+        }
         "check" => framework::explore(check, seed, tier, &verif_dir).exit_code,
+        "replay" if !child => {
+            println!("VERIF_SEED={} check={} tier={:?}", seed, check.id(), tier);
+            let path = args.get(3).cloned().unwrap_or_default();
+            if let Some((s, t, first, last)) = framework::load_sequence(&path) {
+                let t = if t == "thorough" { Tier::Thorough } else { Tier::Quick };
+                match run_seq_child(check, &verif_dir, s, t, first, last) {
+                    SeqOutcome::Failed(i, what) => {
+                        println!("VIOLATION property={} replay={}", check.id(), path);
+                        println!("  class: history-dependent failure: {} (at case {})", what, i);
+                        1
+                    }
+                    SeqOutcome::Clean => {
+                        println!("replay of {} passes on this tree", path);
+                        0
+                    }
+                }
+            } else {
+                let out = run_child(&args[1..].to_vec(), false);
+                if is_crash(out.code) {
+                    println!("VIOLATION property={} replay={}", check.id(), path);
+                    println!("  class: crash ({})", out.how);
+                    1
+                } else {
+                    out.code.unwrap_or(2)
+                }
+            }
+        }
         "replay" => match args.get(3) {
             Some(path) => framework::replay(check, path),
             None => 2,
         },
+        "runcase" => {
+            let index: u64 = args.get(3).and_then(|s| s.parse().ok()).unwrap_or(0);
+            let case = check.generate(seed, index, tier);
+            let v = framework::on_big_stack(move || check.run(&case).verdict);
+            match v {
+                framework::Verdict::Violation { .. } => 1,
+                _ => 0,
+            }
+        }
+        "runseq" => {
+            let first: u64 = args.get(3).and_then(|s| s.parse().ok()).unwrap_or(0);
+            let last: u64 = args.get(4).and_then(|s| s.parse().ok()).unwrap_or(0);
+            let vd = verif_dir.clone();
+            framework::on_big_stack(move || framework::run_sequence(check, &vd, seed, tier, first, last))
+        }
         "gen" => {
             let index: u64 = args.get(3).and_then(|s| s.parse().ok()).unwrap_or(0);
             let case = check.generate(seed, index, tier);
